@@ -60,10 +60,25 @@ def run(tier, seed, drv):
             run_ = run_scenario(scn, bus=b, seed=rng.randrange(1 << 30))
             res.case(SC.scn_key(scn) + b, nontrivial=len(S.devices(scn)) > 1, sample={"scenario": scn, "bus": b} if i < 2 and b == "sync" else None)
             SC.check_run(scn, run_, drv, res, monitors_on=("initial_tick", "device_order", "inputs_latest"), corr=("sim",), case_extra={"bus": b})
+    # the same shapes with a master scheduler that comes up late while a component that is already running has
+    # raised an interrupt (replayed to the scheduler when it subscribes): the initial tick must still update every
+    # device at every depth once, in dependency order, before anything else happens
+    import copy
+    for si, scn in enumerate(shapes(rng)):
+        quiet = [d["name"] for d in S.devices(scn) if not d["inputs"]]
+        for who in quiet:
+            for late, at in ((3, 1), (4, 2), (6, 4)):
+                s2 = dict(copy.deepcopy(scn), start_delays={"": late}, stims=[{"step": 1 + at, "comp": who}], n_ticks=2)
+                for b in ("sync", "internal"):
+                    run_ = run_scenario(s2, bus=b)
+                    raised = [e for e in run_["trace"].of("raise") if e.get("ok")]
+                    res.case(f"late-master:{si}:{who}:{late}:{at}:{b}", nontrivial=bool(raised))
+                    res.count("late-master-early-interrupt" if raised else "late-master-early-interrupt-not-raised")
+                    SC.check_run(s2, run_, drv, res, monitors_on=("initial_tick", "device_order", "inputs_latest"), corr=("ticker",), case_extra={"bus": b})
     res.rule = ("4 hand-written shapes named by the property (unfed inner device exposed outward; system without external inputs; depth 3 without "
                 "inputs/expose; pass-through expose) + corpus + generated flat/nested configurations (depth <= 3), each under the synchronous and a "
                 "delaying bus, initial times 0/7/1e6/-5; the initial tick is compared with the Lean whole-simulation model and monitored directly "
-                "(every device once, at t0, in dependency order, inputs = latest upstream outputs). non-trivial = more than one device")
+                "(every device once, at t0, in dependency order, inputs = latest upstream outputs); the 4 shapes also with a late master scheduler and an interrupt of an input-less device (at any depth) raised before it is up. non-trivial = more than one device")
     return res
 
 
